@@ -187,6 +187,9 @@ func (fc *FnCtx) frameObligations(entry, exit *State, env *Env, c *Contract) {
 	allowed := map[string][]string{}
 	whole := map[string]bool{}
 	for _, t := range targets {
+		if t.whole && t.fresh {
+			continue
+		}
 		if t.whole {
 			whole[t.key] = true
 		} else {
